@@ -4073,6 +4073,18 @@ impl LineBuf {
 			 * will update it when it is needed again
 			 */
 			self.update_graphemes();
+			// A selection that is still open must not reach past the text that is left
+			let max = self.cursor.max;
+			let out_of_text = match self.select_range.as_ref() {
+				Some(SelectRange::OneDim((start,end))) => *start > max || *end > max,
+				Some(SelectRange::TwoDim(windows)) => windows.iter().any(|(start,end)| *start > max || *end > max),
+				None => false
+			};
+			// (an operator that worked on the selection itself closes it; its range is still needed, e.g. by a block insert)
+			if self.select_mode.is_some() && out_of_text && motion.is_some() {
+				self.cursor.set(self.cursor.get());
+				self.update_select_range();
+			}
 		}
 
 		if !is_line_motion {
